@@ -1,5 +1,5 @@
 (* C04 — serialisation always emits the canonical well-formed form. *)
-From UL Require Import Bytes Subtags LangId Ext Likely Inst Ops Grammar LangIdSpec LocaleInv Canonical LangIdProofs CanonProofs InvProofs TablesData OpsInvProofs LengthProofs LocaleLength RoundTrip CanonLocale CanonLocaleProofs.
+From UL Require Import Bytes Subtags LangId Ext Likely Inst Ops Grammar LangIdSpec LocaleInv Canonical LangIdProofs CanonProofs InvProofs TablesData OpsInvProofs LengthProofs LocaleLength RoundTrip CanonLocale CanonLocaleProofs AbstractLocale LocaleSpec StringLevel LocaleGrammar LocaleGrammarProofs PrintGrammar.
 From Coq Require Import String.
 
 (* every LanguageIdentifier satisfying the safe-API invariant prints as canonical text: only ASCII
@@ -67,6 +67,22 @@ Proof. vm_compute. repeat split; reflexivity. Qed.
 Theorem C04_locale_wellformed : forall l, loc_inv l = true -> locale_from_bytes (loc_to_string l) = Ok l.
 Proof. exact locale_roundtrip. Qed.
 
+(* "to_string() is a well-formed identifier", against the EBNF relation of C03 (spec/LocaleGrammar.v): what an
+   invariant-satisfying Locale prints IS a member of the grammar and denotes the value itself - provided every
+   tfield has a value (a tfield whose only value was `true` prints as a bare key: the "no 'true' values" rule,
+   which strict UTS #35 does not count as well-formed; C04_locale_canonical / C04_locale_wellformed cover it) *)
+Theorem C04_printed_is_in_the_grammar : forall l, loc_inv l = true ->
+  forallb (fun kv => negb (nil_b (snd kv))) (t_fields (e_transform (loc_ext l))) = true ->
+  WFLocale (loc_tokens l) l.
+Proof. exact printed_is_wellformed. Qed.
+Example C04_printed_ex :
+  let l := mkLoc (mkLangId (Some (bs "en")) None (Some (bs "US")) None)
+                 (mkE (mkU [(bs "ca", [bs "buddhist"])] [bs "attr"]) (mkT (Some (mkLangId (Some (bs "de")) None None None)) [(bs "h0", [bs "hybrid"])]) [bs "foo"])%string in
+  loc_inv l = true /\ forallb (fun kv => negb (nil_b (snd kv))) (t_fields (e_transform (loc_ext l))) = true
+  /\ loc_to_string l = bs "en-US-t-de-h0-hybrid-u-attr-ca-buddhist-x-foo"%string.
+Proof. vm_compute. repeat split; reflexivity. Qed.
+
+Print Assumptions C04_printed_is_in_the_grammar.
 Print Assumptions C04_locale_canonical.
 Print Assumptions C04_canonicalize_not_longer.
 Print Assumptions C04_locale_canonicalize_not_longer.
